@@ -1,4 +1,6 @@
 pub mod e1_checks;
+pub mod e2_checks;
+pub mod c04;
 
 use crate::report::Tier;
 
@@ -8,6 +10,9 @@ pub fn run(id: &str, tier: &Tier) -> Result<i32, String> {
         "C01" => e1_checks::c01(tier),
         "C02" => e1_checks::c02(tier),
         "C06" => e1_checks::c06(tier),
+        "C03" => e2_checks::c03(tier),
+        "C04" => c04::c04(tier),
+        "C05" => e2_checks::c05(tier),
         _ => Err(format!("no check registered for {}", id)),
     }
 }
